@@ -224,9 +224,11 @@ Holds(q) == sum[q].active /\ \E r \in sum[q].crs : r \in MonRev /\ B.store[r].st
 P_C09_OneAtATime ==
   (IsCall /\ lab.kind = "store" /\ lab.verb = "create" /\ lab.ok) =>
      \A q \in MonProc \ {CurProc} : ~Holds(q)
-\* ... and nobody rewrites or deletes the record of a revision that a still running operation created
+\* ... and nobody rewrites or deletes the PENDING record of a revision that a still running operation created
+\* (once that operation has written its outcome the record is history like any other, even before it returns)
 P_C09_HandsOff ==
-  (IsCall /\ lab.kind = "store" /\ lab.verb \in {"update", "delete"} /\ lab.ok) =>
+  (IsCall /\ lab.kind = "store" /\ lab.verb \in {"update", "delete"} /\ lab.ok /\ CurRev \in MonRev
+     /\ B.store[CurRev].st \in {"pending-install", "pending-upgrade", "pending-rollback"}) =>
      \A q \in MonProc \ {CurProc} : ~(sum[q].active /\ CurRev \in sum[q].crs)
 \* each revision number is created by exactly one of the overlapping operations
 P_C09_UniqueCreator == \A r \in MonRev : Cardinality(creators[r]) <= 1
